@@ -316,6 +316,12 @@ pub fn run(ctx: &mut Ctx) {
     let n = ctx.share(ctx.tier.pick(100_000, 2_000_000));
     let k = 3;
     ctx.run_prop(n, 1, c05_grammar_strategy(cfg.clone()), move |ctx, g| check_grammar(ctx, g, k));
+    // terminal-heavy grammars: adjacent (in)sensitive literals incl. non-ASCII case pairs, skipper shapes over related needles
+    let nt = ctx.share(ctx.tier.pick(30_000, 600_000));
+    ctx.run_prop(nt, 3, terminal_heavy_grammar(), move |ctx, g| {
+        ctx.class("stream:terminal-heavy");
+        check_grammar(ctx, g, k)
+    });
     if ctx.tier == Tier::Thorough {
         let n4 = ctx.share(40_000);
         ctx.run_prop(n4, 2, c05_grammar_strategy(cfg), move |ctx, g| check_grammar(ctx, g, 4));
